@@ -157,6 +157,7 @@ func runC11(c *Ctx) {
 	r.Floor("ctx-chain", n, 15, "rewrap sites on context-error paths")
 	r.Extra("functions_that_may_return_a_context_error", len(ctxErr))
 	c11Residue(c, p)
+	c11PollInLoops(c, p)
 }
 
 // c11Loops: the two entry loops poll on every iteration.
@@ -233,6 +234,15 @@ func c11Loops(c *Ctx, p *core.Prog, ep *errProv) {
 								if k, isC := core.ConstInt(rem.Y); isC && k > 0 && k <= 100000 {
 									detail = sprintf("every %d tokens", k)
 									continue
+								}
+							}
+							// the same cadence written as a mask: count & (2^n - 1) == 0
+							if and, isAnd := bo.X.(*ssa.BinOp); isAnd && and.Op == token.AND {
+								if m, isC := core.ConstInt(and.Y); isC && m > 0 && m < 100000 && (m+1)&m == 0 {
+									if z, isZ := core.ConstInt(bo.Y); isZ && z == 0 {
+										detail = sprintf("every %d tokens", m+1)
+										continue
+									}
 								}
 							}
 						}
